@@ -90,7 +90,7 @@ def run(base_seed, idx, stats, opts):
         elif k == 1:
             # the ladder: worker i runs exactly d instructions ahead of worker i+1, one instruction each in turn
             lr = random.Random(sched_seed)
-            spec = {"strategy": "lockstep", "q": lr.choice((1, 2, 3)), "ladder": lr.randint(1, 13)}
+            spec = {"strategy": "lockstep", "q": 1, "ladder": lr.randint(1, 13)}
         else:
             spec = sched.make_spec(random.Random(sched_seed ^ 0x5EED), est or 1000)
         try:
